@@ -92,6 +92,13 @@ def gen_spec(seed, index, tier):
     spec = dict(seed=seed, world=w.spec, obj=obj, save=save, stale=[], stale_when="before", write_fault=None, recompress=None,
                 read=dict(mode="filename", chunk=0, is_compact_fc=rng.random() < 0.5, symmetrize_fc=rng.random() < 0.5, is_nac=True),
                 generations=1, pairs=sorted(rng.sample(["FORCE_SETS", "FORCE_CONSTANTS", "hdf5", "BORN", "convert"], rng.randint(0, 3))), faulty=faulty)
+    # history inside the writer process: earlier saves of the same object with other settings (a process-global default
+    # mutated by one call must not leak into the next)
+    spec["pre_saves"] = []
+    if rng.random() < 0.35:
+        for i in range(rng.randint(1, 2)):
+            ps = {k: rng.random() < 0.5 for k in ("force_sets", "displacements", "force_constants", "born_effective_charge", "dielectric_constant") if rng.random() < 0.6}
+            spec["pre_saves"].append(dict(settings=ps, filename="earlier_%d.yaml" % i, compression=rng.choice([False, False, True])))
     if faulty:
         kinds = rng.sample(["stale", "write_fault", "stream", "recompress", "gen2"], rng.randint(1, 3))
         if "stale" in kinds:
@@ -238,6 +245,8 @@ def child_writer(args):
     ph, fc_full = _build(w, spec["obj"])
     out = {"raised": None, "fault_fired": 0}
     sv = spec["save"]
+    for ps in spec.get("pre_saves", []):
+        ph.save(ps["filename"], settings=ps["settings"], compression=ps["compression"])
     if spec["write_fault"] is not None:
         with simfs.WriteFault(r"^%s" % sv["filename"].replace(".", r"\."), spec["write_fault"]) as wf:
             try:
@@ -572,7 +581,9 @@ def execute(spec):
 
 def _result(spec, violations, faults, probes, log, nontrivial):
     o = spec["obj"]
-    sig = core.digest([o, spec["save"], spec["stale"], spec["stale_when"], spec["write_fault"] is not None, spec["recompress"], spec["read"], spec["generations"], spec["world"]["crystal"], spec["world"]["nac"]])
+    if spec.get("pre_saves"):
+        faults = dict(faults, earlier_saves_in_same_process=len(spec["pre_saves"]))
+    sig = core.digest([o, spec["save"], spec.get("pre_saves"), spec["stale"], spec["stale_when"], spec["write_fault"] is not None, spec["recompress"], spec["read"], spec["generations"], spec["world"]["crystal"], spec["world"]["nac"]])
     probes["dataset:%s" % o["dataset"]] = 1
     probes["fc:%s" % o["fc"]] = 1
     if o["ext_symbols"]:
@@ -589,6 +600,11 @@ def _result(spec, violations, faults, probes, log, nontrivial):
 
 
 def shrink_candidates(spec):
+    if spec.get("pre_saves"):
+        yield dict(spec, pre_saves=[])
+        if len(spec["pre_saves"]) > 1:
+            for ps in spec["pre_saves"]:
+                yield dict(spec, pre_saves=[ps])
     if spec["stale"] and len(spec["stale"]) > 1:
         for n in spec["stale"]:
             yield dict(spec, stale=[n])
